@@ -251,15 +251,35 @@ uint64_t write_block(Bytes &out, const BlockRecipe &r, int check, const Bytes &p
 	return unpadded;
 }
 
-void write_index_and_footer(Bytes &out, const std::vector<std::pair<uint64_t, uint64_t>> &records, int check, uint8_t reserved_bits)
+// overlong: 0 none; k > 0: field number k (1 = Number of Records, 2.. = the Record fields in order) is
+// written with (overlong_extra) superfluous bytes - the value is right, the encoding is not the shortest
+// one, which the format forbids. as_if_minimal: Index Padding and Backward Size are computed as if the
+// shortest encodings had been used (what a decoder that works from the decoded values would expect).
+static void put_vli_long(Bytes &b, uint64_t v, unsigned extra)
+{
+	if (extra == 0) { put_vli(b, v); return; }
+	while (v >= 0x80) { b.push_back((uint8_t)(v | 0x80)); v >>= 7; }
+	b.push_back((uint8_t)(v | 0x80));
+	for (unsigned i = 1; i < extra; ++i) b.push_back(0x80);
+	b.push_back(0x00);
+}
+
+void write_index_and_footer(Bytes &out, const std::vector<std::pair<uint64_t, uint64_t>> &records, int check, uint8_t reserved_bits,
+		unsigned overlong, unsigned overlong_extra, bool as_if_minimal)
 {
 	size_t i0 = out.size();
 	out.push_back(0);
-	put_vli(out, records.size());
-	for (auto &rc : records) { put_vli(out, rc.first); put_vli(out, rc.second); }
-	while ((out.size() - i0) & 3) out.push_back(0);
+	unsigned field = 1, grown = 0;
+	put_vli_long(out, records.size(), overlong == field ? overlong_extra : 0); if (overlong == field) grown = overlong_extra;
+	for (auto &rc : records) {
+		++field; put_vli_long(out, rc.first, overlong == field ? overlong_extra : 0); if (overlong == field) grown = overlong_extra;
+		++field; put_vli_long(out, rc.second, overlong == field ? overlong_extra : 0); if (overlong == field) grown = overlong_extra;
+	}
+	size_t logical = out.size() - i0 - (as_if_minimal ? grown : 0);
+	while (logical & 3) { out.push_back(0); ++logical; }
 	put32(out, crc32(out.data() + i0, out.size() - i0));
-	size_t isz = out.size() - i0;
+	size_t isz = (as_if_minimal ? logical : out.size() - i0 - 4) + 4;
+	if (!as_if_minimal) isz = out.size() - i0;
 	Bytes f;
 	put32(f, (uint32_t)(isz / 4 - 1));
 	f.push_back(0); f.push_back((uint8_t)(check | reserved_bits));
